@@ -33,6 +33,13 @@ open MdIt.Inline
 #check @vals_induction
 #check @link_url_from_pipeline
 #check @fromPipeline_safe
+#check @inline_children_ordered
+#check @finish_children_ordered
+#check @ranges_induction
+#check @scanAndMatch_ranges
+#check @skipToken_calm
+#check @translate_expand
+#check @translate_same_line
 #print axioms inline_rule_progress_text
 #print axioms inline_rule_progress_newline
 #print axioms inline_rule_progress_escape
@@ -66,3 +73,10 @@ open MdIt.Inline
 #print axioms vals_induction
 #print axioms link_url_from_pipeline
 #print axioms fromPipeline_safe
+#print axioms inline_children_ordered
+#print axioms finish_children_ordered
+#print axioms ranges_induction
+#print axioms scanAndMatch_ranges
+#print axioms skipToken_calm
+#print axioms translate_expand
+#print axioms translate_same_line
